@@ -5,28 +5,28 @@ ROOT = os.path.dirname(os.path.dirname(os.path.abspath(__file__)))
 
 CLAIMED = {
  # id: (engine, technique, level text, note)
- "C01": ("sim+mt", "trace monitor over client-boundary/handler events (unique message ids): at-most-once, rejected-never, accepted-before-stop handled before on_stop",
+ "C01": ("sim+mt", "trace monitor over client-boundary/handler events (unique message ids): at-most-once, rejected-never, accepted-before-stop handled before on_stop, handled as a whole (a handler that was entered finishes before the actor goes on); real-thread supervision rounds (child spawned inside hooks and restarted from the state in its ActorResult) with state conservation across incarnations",
          "Exploration: held on the recorded executions (tens of thousands of seeded single-thread paused-clock scenarios per run across two feature builds, plus real-thread rounds); not a proof over all schedules.",
          "Trusts the harness's scripted actor and the oracle in harness/src/check.rs; SIM explores schedules reachable through yields/timers on one thread, MT whatever the OS produces."),
  "C02": ("sim+mt", "trace monitor: real-time precedence of sends (CallEnd before CallStart) must be preserved by handler entries; stop() as an in-band marker",
          "Exploration over seeded scenarios incl. capacity-1 mailboxes with parked senders and mixed tell/ask/timeout/erased variants.", "As C01."),
- "C03": ("sim+mt", "reply-integrity monitor (reply is a function of request id and handling sequence) + quiescence completeness (no open call at the end of a virtual-time-quiescent history) + real-thread death-race hang monitor; further real-thread rounds: actor ended by JoinHandle::abort() or by shutdown of its runtime, runtimes without a time driver, a tracing subscriber that re-enters rsactor from the dead-letter path, actors on a runtime that is no longer driven once their JoinHandle resolved",
+ "C03": ("sim+mt", "reply-integrity monitor (reply is a function of request id and handling sequence) + quiescence completeness (no open call at the end of a virtual-time-quiescent history) + real-thread death-race hang monitor; further real-thread rounds: actor ended by JoinHandle::abort() or by shutdown of its runtime, runtimes without a time driver, a tracing subscriber that re-enters rsactor from the dead-letter path, actors on a runtime that is no longer driven once their JoinHandle resolved, two unrelated timed blocking calls from two threads at once, requests forwarded parent -> child under restarts",
          "Exploration; liveness restated as quiescence in virtual time (SIM) and bounded progress with heartbeat guard (MT).", "As C01; MT bound 10 s after the actor's JoinHandle resolved."),
  "C04": ("sim+mt", "per-actor hook-trace automaton (on_start once, no overlap, on_stop at most once and last, killed flag iff kill consumed); real-thread rounds dropping the last references from other threads while on_run spins",
          "Exploration over lifecycle/kill/fault profiles: every cause at every phase, hook outcomes ok/err/panic.", "As C01."),
  "C05": ("sim+laws+mt", "JoinHandle output compared with the same run's hook trace (variant, phase, killed, error tag, actor journal); exhaustive accessor laws over all ActorResult shapes",
          "Exploration + exhaustive enumeration of the finite ActorResult shape space for the accessor laws.", "As C01."),
- "C06": ("sim+mt", "trace monitor: kill() returns in the step it was called; at most one handler entry after kill returned; on_stop(killed=true) next; leftovers never handled",
+ "C06": ("sim+mt", "trace monitor: kill() returns in the step it was called; at most one handler entry after kill returned; on_stop(killed=true) next, once and to completion whatever further kill() calls arrive; leftovers never handled; real-thread rounds with several OS threads inside kill() at the same instant on actors of their own",
          "Exploration with pre-loaded mailboxes behind gated handlers, kill at every phase, self-kill from hooks.", "As C01."),
  "C07": ("sim+mt", "reference-model monitor at quiescent instants (harness counts its strong handles; weak ones never count) + probe asks + stop-is-final clause (nothing sent after stop() returned is handled); real-thread rounds dropping the last references from other threads while on_run spins",
          "Exploration over clone/drop/downgrade/upgrade/erased-conversion histories; 'ends' decided at virtual-time quiescence.", "As C01."),
- "C08": ("sim", "poll-level monitor of on_run (every poll, completion and cancellation is an event): no poll while an accepted tell waits or a kill is pending; Ok(false) final; Ok(true) re-run by next quiescence; Err -> on_stop(false); hooks that deliberately use up tokio's cooperative budget so that forced yields fall at arbitrary places",
+ "C08": ("sim", "poll-level monitor of on_run (every poll, completion and cancellation is an event): no poll while an accepted tell waits or a kill is pending; Ok(false) final; Ok(true) re-run by next quiescence, and an enabled on_run restarted at EVERY quiescent instant at which the actor is idle (stop attempts that were given up before their marker was queued request nothing); Err -> on_stop(false); hooks that deliberately use up tokio's cooperative budget so that forced yields fall at arbitrary places",
          "Exploration over on_run scripts x arrival patterns x capacities.", "As C01."),
- "C09": ("sim+probe+mt", "occupancy prefix monitor from boundary events (accepted tells/stop markers minus taken) + quiescent 'no idle wait' check + fresh-process probes of the default-capacity configuration",
+ "C09": ("sim+probe+mt", "occupancy prefix monitor from boundary events (accepted tells/stop markers minus taken) + quiescent 'no idle wait' check + fresh-process probes of the default-capacity configuration (racing, cross-thread and sequential: first value = built-in default, same value twice)",
          "Exploration; occupancy is exact for tell-only traffic in SIM, a sound lower bound otherwise.", "As C01."),
- "C10": ("sim+mt", "virtual-time monitor: Timeout never before the deadline and at most one timer tick after it, never when the reply/failure instant precedes the deadline; Ok returns at the reply instant; other failures at their own instant",
+ "C10": ("sim+mt", "virtual-time monitor: Timeout never before the deadline and at most one timer tick after it, never when the reply/failure instant precedes the deadline; Ok returns at the reply instant; other failures at their own instant; real-thread rounds: timed blocking asks from inside handlers, and a timed blocking call timing out at its own deadline while another thread's slow timed blocking call is pending",
          "Exploration over timeout x completion-time x mailbox-state grid in virtual time (1 ms timer granularity tolerated; exact ties accept both outcomes).", "As C01; tokio's 1 ms timer wheel."),
- "C11": ("sim+mt", "identity/liveness/upgrade probes through every handle kind compared with the spawn's identity and the reference model; process-wide id uniqueness incl. parallel spawn storm; liveness and sends after the JoinHandle resolved by abort() / runtime shutdown",
+ "C11": ("sim+mt", "identity/liveness/upgrade probes through every handle kind compared with the spawn's identity and the reference model; process-wide id uniqueness incl. parallel spawn storm; liveness and sends after the JoinHandle resolved by abort() / runtime shutdown; a queued ask whose caller is gone still counts as a queued message for upgrade(); ids and dead handles across supervised restarts",
          "Exploration.", "As C01."),
  "C12": ("sim", "fault enumeration: one injected panic/error per scenario (hook kind x k-th invocation x traffic position) in 3-5 actor systems; every other monitor must hold for the survivors; global state checked (ids, dead-letter counter, wait-for graph lock)",
          "Fault enumeration by seeded sampling of (hook, k, position); not exhaustive.", "As C01."),
